@@ -396,14 +396,14 @@ func (w *dbgWorld) executedCount(id string) int {
 // periods.
 func (w *dbgWorld) waitFor(id string, want int) bool {
 	last, still := -2, 0
-	for i := 0; i < 600; i++ {
+	for i := 0; i < 2400; i++ {
 		n := w.executedCount(id)
 		if n >= want {
 			return true
 		}
 		if n == last {
 			still++
-			if still > 80 {
+			if still > 400 {
 				return false
 			}
 		} else {
